@@ -22,10 +22,14 @@ Sch == <<
 T == INSTANCE TonTL WITH Schemas <- Sch
 
 Ints == {BigOfInt(0), BigOfInt(-1)}
-Bytes == {<<>>, <<7>>, Rep(253, 1), Rep(254, 1)}
+RawBytes == {[raw |-> <<>>], [raw |-> <<7>>], [raw |-> Rep(253, 1)], [raw |-> Rep(254, 1)]}
+Inner == {[c |-> "p.leaf", f |-> <<BigOfInt(0), [raw |-> <<>>]>>], [c |-> "p.alt", f |-> <<1>>]}
+\* bytes values that carry boxed objects (one, or two concatenated); raw values here never begin with a constructor id - a raw
+\* value that does is indistinguishable on the wire from the object it spells (see NestedAmbiguity below)
+Bytes == RawBytes \cup {[obj |-> <<o1>>] : o1 \in Inner} \cup {[obj |-> <<o1, o2>>] : o1 \in Inner, o2 \in Inner}
 Leafs == {[c |-> "p.leaf", f |-> <<i, b>>] : i \in Ints, b \in Bytes}
 Alts == {[c |-> "p.alt", f |-> <<x>>] : x \in {0, 1}}
-Vecs == {<<>>} \cup {<<l>> : l \in Leafs} \cup {<<l, l>> : l \in {[c |-> "p.leaf", f |-> <<BigOfInt(0), <<>>>>]}}
+Vecs == {<<>>} \cup {<<l>> : l \in Leafs} \cup {<<l, l>> : l \in {[c |-> "p.leaf", f |-> <<BigOfInt(0), [raw |-> <<>>]>>]}}
 Tops == {[c |-> "p.top", f |-> <<BigOfNat(fl), IF fl % 2 = 1 THEN <<lg>> ELSE <<>>, IF (fl \div 2) % 2 = 1 THEN <<1>> ELSE <<>>, v,
                                IF (fl \div 4) % 2 = 1 THEN <<bx>> ELSE <<>>>>] :
             fl \in 0..7, lg \in Ints, v \in Vecs, bx \in Leafs \cup Alts}
@@ -40,6 +44,12 @@ EncOfAll == {<<v, Enc(v)>> : v \in Tops}
 InjectiveAndPrefixFree == LET S == EncOfAll IN
     \A p \in S : \A q \in S : (p[1] # q[1]) => (p[2] # q[2] /\ ~ProperPrefix(p[2], q[2]))
 ASSUME InjectiveAndPrefixFree
+\* the documented ambiguity of bytes fields: raw bytes that spell a boxed object encode like that object
+NestedAmbiguity == LET ix == [c |-> "p.alt", f |-> <<1>>]
+                       a == [c |-> "p.leaf", f |-> <<BigOfInt(0), [obj |-> <<ix>>]>>]
+                       b == [c |-> "p.leaf", f |-> <<BigOfInt(0), [raw |-> T!EncC("p.alt", ix, TRUE)]>>]
+                   IN a # b /\ T!EncC("p.leaf", a, TRUE) = T!EncC("p.leaf", b, TRUE)
+ASSUME NestedAmbiguity
 ASSUME PrintT(<<"values", Cardinality(Tops)>>)
 Injective == TRUE
 PrefixFree == TRUE
